@@ -35,6 +35,7 @@ void iv_fatal(const char *fmt, ...)
 /* ---- globals defined in translation units that are not part of this unit
  * (CBMC treats an undefined extern as an unconstrained object; the native
  * replay needs a definition) ---------------------------------------- */
+#ifndef VERIF_NO_TLS
 #ifndef VERIF_HAVE_IV_MAIN
 pthr_key_t iv_state_key;
 #endif
@@ -47,5 +48,6 @@ int STUB(pthread_setspecific)(pthread_key_t k, const void *v)
 	verif_st = (struct iv_state *)v;
 	return 0;
 }
+#endif /* VERIF_NO_TLS */
 
 #endif
